@@ -79,7 +79,8 @@ fn main() {
     for f in fails { r["failures"].as_array_mut().unwrap().push(json!({ "kind": if f.clause.ends_with("corr") { "corr" } else { "oracle" }, "clause": f.clause, "detail": f.detail, "known": null, "case": {"requests": []} })); }
     r
   } else if id == "C17" {
-    let p = safety::c17_tree();
+    let mut p = safety::c17_tree();
+    if let Some(dir) = arg(&args, "--corpus") { p.corpus.extend(load_corpus(&dir)); }
     let mut j = tree_json(&p, &run_tree_prop(&p, &cfg));
     let r2 = simple::run_simple("C17", &safety::gen_raw, &safety::raw_corpus(), &cfg);
     for k in ["cases", "impl_panics", "oracle_failures", "unknown_oracle_failures", "corr_failures", "model_oracle_failures", "driver_lines"] { j[k] = json!(j[k].as_u64().unwrap_or(0) + r2[k].as_u64().unwrap_or(0)); }
